@@ -209,3 +209,54 @@ def rule(ctx, lib, rid):
                 r.fail(con, f"strain-row{bad[0]}", f.file, f.lineno, f"{ci.name}.Get_beam_B_e_pg", f"dim {dim}: row {bad[0]} of B applied to the nodal values of a polynomial field is not +-({bad[1]})")
             else:
                 r.ok(f"{ci.name} dim {dim}: rows == +-({', '.join(n for n, _ in want)})")
+
+
+def interpolation_rule(ctx, lib, rid):
+    """The beam shape-function matrix N (consistent loads, mass): applied to the nodal values of a kinematically
+    admissible polynomial field it returns, at EVERY point of the element, the field itself: rows (u, v, w, rx, ry, rz)
+    with rz = v' and ry = -w' for Euler-Bernoulli elements (Hermite interpolation reproduces cubics), independent
+    fields of the Lagrange degree for Timoshenko elements.  Get_beam_N_e_pg is interpreted on a straight symbolic
+    element in 1-D, 2-D and 3-D."""
+    repo = ctx.repo
+    r = ctx.rule(rid, "beam shape-function matrix: N(x) . (nodal values of an admissible polynomial field) == the field at x, row by row (u, v, w, rx, ry = -w', rz = v')", min_instances=16)
+    x = Poly.var("x")
+    for ci, seg, timo in beam_classes(repo):
+        for dim in (1, 2, 3):
+            obj, ed, xs, scale, lo = make_obj(lib, ci, seg, dim)
+            f = repo.lookup_method(ci, "Get_beam_N_e_pg")
+            if f is None:
+                raise AnchorMissing(f"{ci.name}.Get_beam_N_e_pg")
+            con = f"{ci.qualname}.Get_beam_N_e_pg[dim={dim}]"
+            r.instance(fn=con)
+            I = Interp(repo, max_steps=2_000_000)
+            I.call_hook = fe_hook_full
+            dof_n = {1: 1, 2: 3, 3: 6}[dim]
+            bs = SimpleNamespace(dim=dim, dof_n=dof_n, beams=[])
+            N = XArray.from_nested(I.call_function(f, [bs], self_obj=obj))
+            nPe = ed.nPe
+            if N.shape != (1, 1, dof_n, dof_n * nPe):
+                r.fail(con, "shape", f.file, f.lineno, f"{ci.name}.Get_beam_N_e_pg", f"dim {dim}: N has shape {N.shape}, expected (Ne, nPg, {dof_n}, {dof_n * nPe})")
+                continue
+            xi_of_x = x / scale + Poly.const(lo)
+            Nx = XArray(N.shape, [_to_poly(e).subs({"x": xi_of_x}) for e in N.data])
+            dl, dh = nPe - 1, 3
+            if timo:
+                F = {k: field(k, dl) for k in ("u", "v", "w", "rx", "ry", "rz")}
+            else:
+                F = dict(u=field("u", dl), rx=field("rx", dl), v=field("v", dh), w=field("w", dh))
+                F["rz"] = F["v"].diff("x")
+                F["ry"] = -F["w"].diff("x")
+            names = {1: ["u"], 2: ["u", "v", "rz"], 3: ["u", "v", "w", "rx", "ry", "rz"]}[dim]
+            if dim == 1:
+                F = dict(u=F["u"])
+            d = dof_vector(dim, xs, F)
+            bad = None
+            for k, nm in enumerate(names):
+                got = apply(Nx, d, k)
+                if not near_zero(got - F[nm], Nx, d):
+                    bad = (k, nm)
+                    break
+            if bad:
+                r.fail(con, f"row:{bad[1]}", f.file, f.lineno, f"{ci.name}.Get_beam_N_e_pg", f"dim {dim}: row {bad[0]} of N applied to the nodal values of an admissible polynomial field is not the field {bad[1]}(x) (with ry = -w', rz = v'): consistent nodal loads and the mass matrix use a different interpolation than the stiffness")
+            else:
+                r.ok(f"{ci.name} dim {dim}: N reproduces ({', '.join(names)})")
